@@ -7,6 +7,7 @@ package parser
 import (
 	"errors"
 	"strings"
+	"unicode/utf16"
 
 	"github.com/smasher164/xid"
 	"github.com/theory/sqljson/path/ast"
@@ -14,6 +15,7 @@ import (
 
 var (
 	_ = xid.Start
+	_ = utf16.DecodeRune
 	_ ast.Node
 	_ strings.Builder
 )
@@ -236,8 +238,17 @@ func outLast() any                               { return nil }
 //@ props C03 C04
 //@ modifies l.srcPos, l.lastCharLen, l.column, l.line, l.lastLineLen, l.errors, l.tokEnd, l.strBuf
 //@ ensures [C04] stop-means-error-or-eof: r0 < 0 ==> r0 == -1
+//@ ensures [C03 C02] a-code-point-outside-the-surrogate-range-is-written-as-it-is: firstret[rune](l.decodeUnicode, 0) > 0 && !(firstret[rune](l.decodeUnicode, 0) >= 55296 && firstret[rune](l.decodeUnicode, 0) <= 57343) ==> ncalls(l.decodeUnicode) == 1 && ncalls(l.writeUnicode) == 1 && callarg[rune](l.writeUnicode, "r") == firstret[rune](l.decodeUnicode, 0)
+//@ ensures [C03 C02] a-surrogate-needs-its-pair: firstret[rune](l.decodeUnicode, 0) >= 55296 && firstret[rune](l.decodeUnicode, 0) <= 57343 && ncalls(l.writeUnicode) >= 1 ==> ncalls(l.decodeUnicode) == 2 && ncalls(l.writeUnicode) == 1 && callarg[rune](l.writeUnicode, "r") == utf16.DecodeRune(firstret[rune](l.decodeUnicode, 0), callret[rune](l.decodeUnicode, 0))
+//@ ensures [C03 C04] nothing-written-without-a-code-point: firstret[rune](l.decodeUnicode, 0) <= 0 ==> ncalls(l.writeUnicode) == 0 && r0 == firstret[rune](l.decodeUnicode, 0)
 //@ ensures [C04] errors-only-grow: len(l.errors) >= old(len(l.errors))
 //@ ensures [C04] progress: l.srcPos >= old(l.srcPos) && (r0 >= 0 ==> l.srcPos > old(l.srcPos))
+
+// writeUnicode appends the UTF-8 encoding of one code point to the token text;
+// under contract so that its callers can say which code point they hand it
+//@ func (*lexer).writeUnicode
+//@ props C03 C04
+//@ modifies l.strBuf
 
 //@ func (*lexer).decodeUnicode
 //@ props C03 C04
